@@ -13,7 +13,7 @@ for k in m['caught_by']:
 print(' '.join(cs[:1]) if cs else sys.argv[1][:3])
 P
 )
-  if grep -q '"obsolete"' /verif/$d/meta.json; then echo "$id: skipped (no longer a break on the current tree, see meta.json)"; continue; fi
+  if grep -qE '"(obsolete|not_reported)"' /verif/$d/meta.json; then echo "$id: skipped (no longer a break, or recorded as not reported: see meta.json)"; continue; fi
   if ! git -C /repo diff --quiet; then echo "REPO DIRTY - abort"; exit 2; fi
   git -C /repo apply /verif/$d/patch.diff || { echo "$id: PATCH DOES NOT APPLY"; continue; }
   res=""
